@@ -100,11 +100,16 @@ def check_call(contract, args: dict, repo=None, quiet=True) -> RTResult:
     interp = Interp(ctx)
     st = State(mod=mod, cls=cnode)
     real = {}
+    is_init = contract.qualname.endswith(".__init__")
     for name, ty in contract.params.items():
         ty0 = ty.alternatives()[0] if isinstance(ty, T.OneOf) else ty
         v = args[name]
         if isinstance(ty, T.OneOf):
             ty0 = _pick_alternative(ty, v)
+        if is_init and name == "self":
+            # a constructor is replayed by calling the class: there is no object yet
+            st.env[name] = lift(v if not isinstance(v, dict) else _DictView(v), ty0)
+            continue
         try:
             real[name] = make_object(v)
         except Outside:
@@ -134,7 +139,10 @@ def check_call(contract, args: dict, repo=None, quiet=True) -> RTResult:
     with warnings.catch_warnings():
         warnings.simplefilter("ignore")
         try:
-            if "self" in call_args:
+            if is_init and owner is not None and isinstance(owner, type):
+                pa, kw = _split_args(fn, {"self": None, **call_args})
+                out = owner(*pa[1:], **kw)
+            elif "self" in call_args:
                 slf = call_args.pop("self")
                 bound = getattr(slf, contract.qualname.split(".")[-1])
                 pa, kw = _split_args(bound, call_args)
